@@ -186,7 +186,14 @@ def handlePredict (st : St) (args impl : List String) : St × String :=
           flag (st.st.live.any (fun t => expired st.cfg st.st t)) "expired-uncollected" ++
           flag (st.st.awCounter == 0) "gc-runs" ++ flag (gs.length ≥ 2) "multi-scene-batch" ++
           flag (gs.any (fun (_, ds, _, _) => ds.isEmpty)) "empty-call" ++
-          flag ((st.st.live.map (·.scene)).eraseDups.length ≥ 2) "multi-scene-store"
+          flag ((st.st.live.map (·.scene)).eraseDups.length ≥ 2) "multi-scene-store" ++
+          flag (gs.any (fun (_, _, es, _) => !AssignX.small (es.map (fun x => { q := x.det + 1, t := x.tid, w := x.w })))) "large-assignment-dp"
+        -- on small instances the dynamic programme must agree with the exhaustive enumeration
+        let dpOk := gs.all (fun (_, _, es, _) =>
+          let aes : List AssignX.Entry := es.map (fun x => { q := x.det + 1, t := x.tid, w := x.w })
+          !AssignX.small aes || ((AssignX.bestDP aes st.cfg.thr).1 == AssignX.best aes st.cfg.thr &&
+                                 (AssignX.bestDP aes st.cfg.thr).2 == (AssignX.optimal aes st.cfg.thr).length))
+        if !dpOk then (st, bad "bestDP disagrees with the enumeration on a small instance") else
         match modelRes with
         | none =>
           -- the implementation's outcome is not an outcome of the model: the choice is not a valid
@@ -201,7 +208,7 @@ def handlePredict (st : St) (args impl : List String) : St × String :=
           let kDump := d == implDump impl
           let ties := gs.filterMap (fun (sc, _, es, _) =>
             let aes : List AssignX.Entry := es.map (fun x => { q := x.det + 1, t := x.tid, w := x.w })
-            if (AssignX.optimal aes st.cfg.thr).length > 1 then some sc else none)
+            if AssignX.optCount aes st.cfg.thr > 1 then some sc else none)
           ({ st with st := st', nextTok := tok', issued := (st.issued ++ ids).eraseDups, tieScenes := (st.tieScenes ++ ties).eraseDups },
            res (kRecs && kDump) (oLen && oEcho && oDistinct && oFresh && oEpoch && kDump) flags
              s!"kRecs={kRecs} kDump={kDump} o=[{oLen},{oEcho},{oDistinct},{oFresh},{oEpoch}] model={d}")
